@@ -121,6 +121,40 @@ theorem sameLocBatch_of_targets (c : Circ) (hinv : c.Inv) (tg : List Tgt)
     exact sameSet_refl _
   nodup := hsub.nodup (iterCyc_nodup hinv)
 
+/-- a pointwise substitution that keeps every operation's qudit set leaves the timeline of every
+qudit that no target touches unchanged -/
+theorem timeline_of_subst (c : Circ) (tg : List Tgt) (f : Nat → Op → Op)
+    (hrel : ∀ k x, RelT tg k x (f k x)) (hon : ∀ k x q, (f k x).on q = x.on q)
+    (q : Nat) (hq : ∀ t ∈ tg, q ∉ t.2.1.loc) :
+    (⟨c.radixes, c.cycles.mapIdx (fun k cy => cy.map (f k))⟩ : Circ).timeline q = c.timeline q := by
+  simp only [Circ.timeline, Circ.ops, proj]
+  have hcy : ∀ k (cy : Cycle), (cy.map (f k)).filter (·.on q) = cy.filter (·.on q) := by
+    intro k cy
+    induction cy with
+    | nil => rfl
+    | cons x xs ih =>
+      simp only [List.map_cons, List.filter_cons, hon, ih]
+      by_cases hx : x.on q = true
+      · simp only [hx, if_true]
+        congr 1
+        rcases hrel k x with ⟨n, hmem, _⟩ | ⟨_, h⟩
+        · exfalso
+          have := hq _ hmem
+          simp [Op.on] at hx
+          exact this hx
+        · exact h
+      · simp [hx]
+  have : ∀ (L : List Cycle) (g : Nat → Cycle → Cycle) (hg : ∀ k cy, (g k cy).filter (·.on q) = cy.filter (·.on q)),
+      (L.mapIdx g).flatten.filter (·.on q) = L.flatten.filter (·.on q) := by
+    intro L
+    induction L with
+    | nil => intro g _; rfl
+    | cons cy L ih =>
+      intro g hg
+      simp only [List.mapIdx_cons, List.flatten_cons, List.filter_append, hg]
+      rw [ih (fun i => g (i + 1)) (fun k cy => hg (k + 1) cy)]
+  exact this c.cycles (fun k cy => cy.map (f k)) hcy
+
 end BqVerif.Circ
 
 namespace BqVerif.Control
@@ -182,7 +216,7 @@ theorem fePost_items (env : Env) (cfg : FECfg) (model : MModel) :
         have hacc0 : Accepted env cfg model jr t0 := ⟨acc.w.blocks, _, ha, rfl⟩
         refine ⟨t0 :: tg, by rw [h1, hit]; simp, ?_, ?_, ?_, ?_⟩
         · simp only [List.map_cons]
-          exact h2.cons₂ _
+          exact h2.cons_cons _
         · intro t ht
           simp only [List.mem_cons] at ht
           rcases ht with ht | ht
